@@ -61,6 +61,8 @@ POOL = [
       lambda t: 'CCC' in t['description'].upper() or 'AAA' in t['description'].upper(), 'CatD2', 'SubD2', dyn=lambda t: ['Beta'], key=(50, 2, 0, 6)),
     R('Shadow', ['let: is_large = amount > 5', 'match: is_large and contains("ZZZ")', 'category: CatShadow', 'subcategory: SubShadow'],
       lambda t: t['amount'] > 5 and 'ZZZ' in t['description'].upper(), 'CatShadow', 'SubShadow', key=(50, 1, 0, 3)),
+    # a double-quoted pattern containing an apostrophe: its whole text counts for the pattern-length key
+    R('Apos', ['match: contains("AAA\'S AUTH")', 'category: CatApos', 'subcategory: SubApos'], has("AAA'S AUTH"), 'CatApos', 'SubApos', key=(50, 1, 0, 10)),
 ]
 BY_NAME = {r.name: r for r in POOL}
 
@@ -71,7 +73,7 @@ TXNS = [
     {'description': 'CCC OTHER', 'amount': 80.0, 'date': date(2025, 1, 2), 'field': {}, 'source': 'Chk'},
     {'description': 'BBB', 'amount': 20.0, 'date': date(2025, 3, 30), 'field': {'kind': ' '}, 'source': 'Visa'},
     {'description': 'AAA STORE', 'amount': 600.0, 'date': date(2025, 3, 7), 'field': {'kind': 'x'}, 'source': 'Amex'},
-    {'description': 'AAA AUTH HOLD', 'amount': 0.0, 'date': date(2025, 3, 8), 'field': {'kind': 'Hold'}, 'source': 'Visa'},
+    {'description': "AAA'S AUTH HOLD", 'amount': 0.0, 'date': date(2025, 3, 8), 'field': {'kind': 'Hold'}, 'source': 'Visa'},
 ]
 
 
